@@ -247,3 +247,138 @@ def module_axis_lint(repo, rep, rule, modules):
                 n += 1
                 (rep.bad if kind == "bad" else rep.ok)(rule, f"ethosu/vela/{mname}.py:{q}", txt[:110], detail)
     return n
+
+
+TRUTHY_EXEMPT = {
+    ("high_level_command_to_npu_op", "create_npu_activation", "quant.zero_point"): "deliberate: 'zero point is not 0' selects the re-quantised clamp",
+    ("tosa_graph_optimiser", "rewrite_activation", "ifm.quantization.zero_point"): "deliberate: `zp if zp else 0`",
+}
+NUMERIC_OPTIONAL = {"ifm2_scalar", "min", "max", "scale_f32", "zero_point", "quant_min", "quant_max", "quant_dim", "param_a", "param_b"}
+
+
+def truthiness_lint(repo, rep, rule, modules):
+    """An Optional *numeric* field (scalar operand, zero point, scale, min / max) is absent when it is None; 0 / 0.0 is
+    a present value. A bare truth test of such a field (`if x.min:`, `x.ifm2_scalar and ...`, `not q.zero_point`) treats
+    0 as absent. Every truth-tested occurrence of these attributes in the given modules is reported unless it is in
+    the reviewed table."""
+    n = 0
+
+    def tested(e, in_test, out):
+        if isinstance(e, ast.BoolOp):
+            for i, v in enumerate(e.values):
+                tested(v, in_test or i < len(e.values) - 1, out)
+        elif isinstance(e, ast.UnaryOp) and isinstance(e.op, ast.Not):
+            tested(e.operand, True, out)
+        elif in_test:
+            out.append(e)
+
+    for mname in modules:
+        m = repo.mod(mname)
+        for q, fn in m.functions.items():
+            cands = []
+            for x in ast.walk(fn):
+                if isinstance(x, (ast.If, ast.IfExp, ast.While, ast.Assert)):
+                    tested(x.test, True, cands)
+                elif isinstance(x, ast.BoolOp):
+                    tested(x, False, cands)
+                elif isinstance(x, ast.comprehension):
+                    for c in x.ifs:
+                        tested(c, True, cands)
+            seen = set()
+            for e in cands:
+                if isinstance(e, ast.Attribute) and e.attr in NUMERIC_OPTIONAL and id(e) not in seen:
+                    seen.add(id(e))
+                    key = (mname, q.split(".")[-1], norm(e))
+                    if key in TRUTHY_EXEMPT:
+                        rep.info(rule, f"ethosu/vela/{mname}.py:{q}", f"truth test of {norm(e)}", "reviewed: " + TRUTHY_EXEMPT[key])
+                        continue
+                    n += 1
+                    rep.bad(rule, f"ethosu/vela/{mname}.py:{q}", f"truth test of the optional numeric field `{norm(e)}`",
+                            "a value of 0 / 0.0 is treated like an absent (None) field: the register / file field for it is skipped although the operation carries the value")
+    return n
+
+
+def none_skip_lint(repo, rep, rule, modules):
+    """Operand / range / consumer lists have holes (None for an absent optional entry). A loop over such a list that
+    tests its element for None must skip that element (`continue`) - leaving the loop (`break`) or the function
+    silently drops every later entry."""
+    n = 0
+    for mname in modules:
+        m = repo.mod(mname)
+        for q, fn in m.functions.items():
+            for lp in ast.walk(fn):
+                if not (isinstance(lp, ast.For) and isinstance(lp.target, ast.Name)):
+                    continue
+                v = lp.target.id
+                for st in lp.body:
+                    if isinstance(st, ast.If) and norm(st.test) in (f"{v} is None", f"not {v}", f"None is {v}") and not st.orelse:
+                        kinds = [type(x).__name__ for x in st.body]
+                        if kinds == ["Return"] and q.split(".")[-1] in ("shape_num_elements", "shape_fully_defined"):
+                            continue
+                        n += 1
+                        rep.check(kinds == ["Continue"], rule, f"ethosu/vela/{mname}.py:{q}", f"`for {v} in {norm(lp.iter)[:50]}`: a None entry is skipped with `continue`",
+                                  f"a None entry ends the loop with `{' / '.join(kinds)}`: the entries after the hole are never examined")
+    return n
+
+
+def mutated_iteration_lint(repo, rep, rule, modules):
+    """A loop whose body removes / inserts entries of the collection it iterates (`for op in t.consumers(): ...
+    t.consumer_list.remove(op)`) must iterate a copy (`list(...)`): iterating the live list skips the element after
+    every removal. Matched by base object and attribute stem (consumers() / consumer_list)."""
+    mut = {"remove", "append", "insert", "pop", "extend", "clear"}
+    n = 0
+    for mname in modules:
+        m = repo.mod(mname)
+        for q, fn in m.functions.items():
+            for lp in ast.walk(fn):
+                if not isinstance(lp, ast.For):
+                    continue
+                it = lp.iter
+                wrapped = isinstance(it, ast.Call) and isinstance(it.func, ast.Name) and it.func.id in ("list", "tuple", "sorted", "reversed", "enumerate", "set") and it.args
+                core = it.args[0] if wrapped else it
+                copied = bool(wrapped) and it.func.id in ("list", "tuple", "sorted", "set")
+                b = core.func if isinstance(core, ast.Call) and isinstance(core.func, ast.Attribute) else core
+                stem = b.attr[:6] if isinstance(b, ast.Attribute) else None
+                while isinstance(b, (ast.Attribute, ast.Subscript)):
+                    b = b.value
+                if stem is None or not isinstance(b, ast.Name):
+                    continue
+                for x in ast.walk(ast.Module(body=lp.body, type_ignores=[])):
+                    if isinstance(x, ast.Call) and isinstance(x.func, ast.Attribute) and x.func.attr in mut and isinstance(x.func.value, ast.Attribute):
+                        tgt = x.func.value
+                        if norm(tgt.value) == b.id and tgt.attr[:6] == stem:
+                            n += 1
+                            rep.check(copied, rule, f"ethosu/vela/{mname}.py:{q}", f"`for ... in {norm(it)[:50]}` with `{norm(x)[:50]}` in its body iterates a copy",
+                                      "the loop iterates the live list it shrinks: every second entry is skipped, and the entries left behind keep pointing at the old tensor")
+    return n
+
+
+def scale_direction_lint(repo, rep, rule):
+    """A re-quantisation factor is (input scale[s]) / (output scale): every quotient over quantisation scales in the
+    compiler has the output scale in the denominator (dequantise, then quantise to the output). A quotient with an
+    output scale on top and only input scales below is the reciprocal of the factor the reference kernels use."""
+    import re as _re
+
+    def side(e):
+        t = str(norm(e)).lower()
+        s = set()
+        if _re.search(r"ifm|input|in_scale", t):
+            s.add("in")
+        if _re.search(r"ofm|output|out_scale", t):
+            s.add("out")
+        return s
+
+    n = 0
+    for m in repo.core_modules():
+        if m.name.startswith("tosa"):
+            continue
+        for q, fn in m.functions.items():
+            for x in ast.walk(fn):
+                if isinstance(x, ast.BinOp) and isinstance(x.op, ast.Div) and "scale" in str(norm(x)).lower():
+                    a, b = side(x.left), side(x.right)
+                    if not (a | b) or (a == b):
+                        continue
+                    n += 1
+                    rep.check(not (a == {"out"} and b == {"in"}), rule, f"ethosu/vela/{m.name}.py:{q}", f"`{str(norm(x))[:80]}` divides by the output-side scale",
+                              "output scale over input scale: the reciprocal of the re-quantisation factor (input / output) every other site and the reference kernels use")
+    return n
